@@ -205,7 +205,19 @@ def run(path, programs, order, timeout=20.0):
         executed[cmd] = executed.get(cmd, 0) + 1
         return ["fluid"]
     mod.CommandManager.run_command = run_command
-    out = dict(errors=[], marks=[], results={}, finished=[])
+    out = dict(errors=[], marks=[], results={}, finished=[], left_paused=[])
+    state = dict(in_wfc=False)
+    orig_wfc = cm.wait_for_cmd
+
+    def wfc():
+        state["in_wfc"] = True
+        try:
+            return orig_wfc()
+        finally:
+            state["in_wfc"] = False
+            if cm.pause:
+                out["left_paused"].append(sorted(cm.pause))
+    cm.wait_for_cmd = wfc
 
     def body(name, prog):
         try:
@@ -225,7 +237,8 @@ def run(path, programs, order, timeout=20.0):
                     cm.wait()
                 elif op == "C":
                     cm.cont()
-                out["marks"].append((name, op, i, "end", sched.pos))
+                out["marks"].append((name, op, i, "end", sched.pos,
+                                     state["in_wfc"]))
             out["finished"].append(name)
         except Deadlock:
             pass
